@@ -6,6 +6,9 @@ import (
 	"encoding/json"
 	"fmt"
 	"hash/fnv"
+	"runtime"
+	"sort"
+	"strings"
 	"testing"
 	"time"
 
@@ -60,7 +63,83 @@ type hangErr struct{ msg, blocked string }
 func (h *hangErr) Error() string { return h.msg }
 
 func hang(format string, args ...interface{}) error {
-	return &hangErr{msg: fmt.Sprintf(format, args...), blocked: hx.BlockedInGo9p()}
+	h := &hangErr{msg: fmt.Sprintf(format, args...), blocked: hx.BlockedInGo9p()}
+	if h.blocked == "" {
+		h.blocked = readersNotReading()
+	}
+	return h
+}
+
+// readersNotReading: the stacks of connection reader goroutines (go9p's
+// (*Conn).recv) that are parked anywhere but in their transport read, at the same
+// place in two dumps taken two seconds apart. hx.BlockedInGo9p looks at the innermost
+// frame only, so it does not see a reader that has gone into the implementation itself
+// (the library ran a request on the reader goroutine) and is parked there with the
+// held set: nothing that arrives on that connection behind it is read, let alone
+// answered. Only a Tversion is handled on the reader, and run() sends none after the
+// prologue; an idle reader waits in xport's read.
+func readersNotReading() string {
+	first := readerStacks()
+	if len(first) == 0 {
+		return ""
+	}
+	time.Sleep(2 * time.Second)
+	second := readerStacks()
+	var ids []string
+	for id, a := range first {
+		if b, ok := second[id]; ok && frames(a) == frames(b) {
+			ids = append(ids, id)
+		}
+	}
+	sort.Strings(ids)
+	var out []string
+	for _, id := range ids {
+		out = append(out, "(connection reader not reading) "+second[id])
+	}
+	return strings.Join(out, "\n\n")
+}
+
+// frames: the function names of a stack block, without arguments and addresses.
+func frames(blk string) string {
+	var out []string
+	for _, l := range strings.Split(blk, "\n")[1:] {
+		if strings.HasPrefix(l, "\t") {
+			continue
+		}
+		if i := strings.LastIndex(l, "("); i > 0 {
+			l = l[:i]
+		}
+		out = append(out, l)
+	}
+	return strings.Join(out, "|")
+}
+
+func readerStacks() map[string]string {
+	buf := make([]byte, 1<<24)
+	n := runtime.Stack(buf, true)
+	out := map[string]string{}
+	for _, blk := range strings.Split(string(buf[:n]), "\n\n") {
+		head, _, _ := strings.Cut(blk, "\n")
+		if !strings.HasPrefix(head, "goroutine ") {
+			continue
+		}
+		reader, reading := false, false
+		for _, l := range strings.Split(blk, "\n")[1:] {
+			// (a "created by ...(*Conn).recv" line belongs to a request's own goroutine)
+			if strings.HasPrefix(l, "github.com/rminnich/go9p.(*Conn).recv(") {
+				reader = true
+			}
+			if strings.HasPrefix(l, "verif/internal/xport.") {
+				reading = true
+			}
+		}
+		if !reader || reading || strings.Contains(head, "[running") || strings.Contains(head, "[runnable") {
+			continue
+		}
+		gid, _, _ := strings.Cut(strings.TrimPrefix(head, "goroutine "), " ")
+		out[gid] = blk
+	}
+	return out
 }
 
 // hangs counts deadlines without a culprit; after a few of them the remaining cases
@@ -529,6 +608,18 @@ func classify(c *Case) bool {
 		}
 	}
 	hx.Label(fmt.Sprintf("held=%d nconn=%d maxpend=%d", len(c.Held), c.NConn, c.Maxpend))
+	isB := func(tg uint16) bool { return tg <= 1 || tg >= 0xFFFE }
+	hb, hn, fb := false, false, false
+	for _, r := range c.Held {
+		hb = hb || isB(r.Tag)
+		hn = hn || r.Tag == 0xFFFF
+	}
+	for _, r := range c.Free {
+		fb = fb || isB(r.Tag)
+	}
+	if len(c.Held) > 0 && len(c.Free) > 0 {
+		hx.Label(fmt.Sprintf("tags: held-boundary=%v held-NOTAG=%v free-boundary=%v", hb, hn, fb))
+	}
 	if c.Auth {
 		ha, fo := 0, 0
 		for _, r := range c.Held {
@@ -572,6 +663,23 @@ func execute(test string, c *Case) error {
 	return err
 }
 
+// boundaryTags: the ends of the tag space. 0xFFFF is NOTAG, the value a Tversion
+// carries by convention; on any other message type it is a tag like every other one
+// (the statement's only exception is the Tversion message itself).
+var boundaryTags = []uint16{0, 1, 0xFFFE, 0xFFFF}
+
+// genTag: 1 in 3 a boundary value, 1 in 6 somewhere in the top of the tag space,
+// otherwise a small tag. (0x7000..0x7FFF is left to the oldtags of "flushunknown".)
+func genTag(t *rapid.T) uint16 {
+	switch rapid.IntRange(0, 5).Draw(t, "tagclass") {
+	case 0, 1:
+		return rapid.SampledFrom(boundaryTags).Draw(t, "tag")
+	case 2:
+		return rapid.Uint16Range(0xFF00, 0xFFFF).Draw(t, "tag")
+	}
+	return rapid.Uint16Range(0, 200).Draw(t, "tag")
+}
+
 func genCase(t *rapid.T) *Case {
 	c := &Case{Dotu: rapid.Bool().Draw(t, "dotu"), Maxpend: rapid.SampledFrom([]int{0, 2, 16}).Draw(t, "maxpend"), NConn: rapid.IntRange(1, 3).Draw(t, "nconn"), OneChunk: rapid.Bool().Draw(t, "onechunk")}
 	fk := []string{"walk", "open", "create", "read", "write", "stat", "wstat", "clunk", "remove", "attach"}
@@ -579,7 +687,7 @@ func genCase(t *rapid.T) *Case {
 	used := map[[2]int]bool{}
 	tag := func(conn int) uint16 {
 		for {
-			tg := rapid.Uint16Range(0, 200).Draw(t, "tag")
+			tg := genTag(t)
 			if !used[[2]int{conn, int(tg)}] {
 				used[[2]int{conn, int(tg)}] = true
 				return tg
@@ -785,6 +893,86 @@ func TestBackToBack(t *testing.T) {
 			t.Fatalf("%v", err)
 		}
 	}
+}
+
+// boundaryCase: held requests carrying boundary tags (the first one tag hb and kind
+// hk on connection 0, on every further connection one with the next boundary value),
+// and, issued while they are held, on every connection an ordinary request under each
+// boundary tag that no held request of that connection carries, a shared-tag group of
+// three under one of those, and a group of two queued behind the held head.
+func boundaryCase(hb int, hk string, holdDestroy bool, nconn, maxpend int, dotu, oneChunk bool, rot int) *Case {
+	c := &Case{Dotu: dotu, Maxpend: maxpend, NConn: nconn, OneChunk: oneChunk}
+	fk := []string{"stat", "read", "walk", "write", "open", "clunk", "create", "attach", "wstat", "remove"}
+	k := rot
+	next := func() string { k++; return fk[k%len(fk)] }
+	for conn := 0; conn < nconn; conn++ {
+		h := ReqSpec{Conn: conn, Kind: hk, Tag: boundaryTags[(hb+conn)%len(boundaryTags)], HoldDestroy: holdDestroy}
+		if conn > 0 {
+			h.Kind, h.HoldDestroy = next(), false
+		}
+		c.Held = append(c.Held, h)
+	}
+	for conn := 0; conn < nconn; conn++ {
+		held := c.Held[conn].Tag
+		first := true
+		for _, tg := range boundaryTags {
+			if tg == held {
+				continue
+			}
+			c.Free = append(c.Free, ReqSpec{Conn: conn, Kind: next(), Tag: tg, Async: k%3 == 0, Err: k%5 == 0})
+			if first {
+				// two more under the same tag: a group of three
+				c.Free = append(c.Free, ReqSpec{Conn: conn, Kind: next(), Tag: tg, Async: k%3 == 0}, ReqSpec{Conn: conn, Kind: next(), Tag: tg})
+				first = false
+			}
+		}
+		c.Free = append(c.Free, ReqSpec{Conn: conn, Kind: next(), Tag: held}, ReqSpec{Conn: conn, Kind: next(), Tag: held, Async: true})
+		c.Free = append(c.Free, ReqSpec{Conn: conn, Kind: "flushunknown", Tag: uint16(300 + conn)})
+	}
+	c.Release = seq(len(c.Held))
+	if rot%2 == 1 {
+		for i, j := 0, len(c.Release)-1; i < j; i, j = i+1, j-1 {
+			c.Release[i], c.Release[j] = c.Release[j], c.Release[i]
+		}
+	}
+	return c
+}
+
+// TestEnumBoundaryTags: the tag of a request is an opaque 16-bit name. Every boundary
+// value of the tag space {0, 1, 0xFFFE, 0xFFFF (NOTAG)} x every kind of request that
+// can be held x 1..3 connections: the request is held in the implementation under that
+// tag while requests under the other boundary tags (single and as shared-tag groups)
+// are issued on the same and on the other connections and must be answered.
+func TestEnumBoundaryTags(t *testing.T) {
+	type hk struct {
+		kind string
+		hd   bool
+	}
+	hks := []hk{{"walk", false}, {"open", false}, {"create", false}, {"read", false}, {"write", false}, {"stat", false}, {"wstat", false}, {"clunk", false}, {"remove", false}, {"attach", false}, {"clunk", true}, {"remove", true}}
+	idx := 0
+	for hb := range boundaryTags {
+		for _, h := range hks {
+			for nconn := 1; nconn <= 3; nconn++ {
+				idx++
+				if hx.NShards > 1 && idx%hx.NShards != hx.Shard {
+					continue
+				}
+				mps := []int{[]int{0, 2, 16}[idx%3]}
+				if hx.Thorough() {
+					mps = []int{0, 2, 16}
+				}
+				for _, mp := range mps {
+					c := boundaryCase(hb, h.kind, h.hd, nconn, mp, idx%2 == 0, idx%4 < 2, idx)
+					hx.Label(fmt.Sprintf("boundary: held tag %#x", boundaryTags[hb]))
+					if err := execute("boundarytags", c); err != nil {
+						hx.Violation("boundarytags", c, err.Error())
+						t.Fatalf("%v", err)
+					}
+				}
+			}
+		}
+	}
+	hx.Exhaustive("boundary tags: held tag in {0, 1, 0xFFFE, 0xFFFF} x 12 held kinds (10 message kinds, 2 with the FidDestroy held) x 1..3 connections, the other boundary tags free / grouped on every connection")
 }
 
 func TestReplay(t *testing.T) {
